@@ -751,6 +751,19 @@ def s3e_user_code_under_path(chk: Check, proj: Project, w) -> None:
         chk.ob("S3e", f"perfutil.component:{f.name}:{short(c, 50)}-under-component-path", m.loc(c), under,
                f"`{short(c, 50)}` runs inside `with component_error_message(...)`" if under else
                f"`{short(enclosing_stmt(c), 70)}` runs user code (on_render_after) outside `component_error_message`: an exception from the hook of a NESTED component is reported as 'An error occured while rendering components <root>' - the path to the component that raised is lost")
+        # ... with the path of THAT component: every name in the argument is defined on the way to the call in this iteration
+        # (a variable assigned further down in the loop body still holds the value of an EARLIER iteration)
+        wth = next((a for a in ancestors(c) if isinstance(a, ast.With) and any(isinstance(it.context_expr, ast.Call) and last_attr(it.context_expr.func) == "component_error_message" for it in a.items)), None)
+        if wth is not None:
+            arg_names = {y.id for it in wth.items for y in ast.walk(it.context_expr) if isinstance(y, ast.Name) and isinstance(y.ctx, ast.Load)}
+            stale = []
+            for nm_ in sorted(arg_names):
+                defs_ = [s_ for s_, _v in assignments(f, nm_) if any(a is loop for a in ancestors(s_))]
+                if defs_ and all(d.lineno > wth.lineno for d in defs_):
+                    stale.append(nm_)
+            chk.ob("S3e", f"perfutil.component:{f.name}:{short(c, 50)}-path-of-the-current-item", m.loc(wth), not stale,
+                   "the path handed to component_error_message is built from the current queue item" if not stale else
+                   f"`{short(wth.items[0].context_expr)}` uses `{stale[0]}`, which this iteration has not assigned yet (its only definitions in the loop come later): it still holds the path of the component rendered LAST - an error in on_render_after of a component with children is reported under its last descendant's path (Page > footer for a fault in Page)")
     chk.floor("S3e", n, 2)
 
 
